@@ -52,6 +52,7 @@ def dispatch (op : String) (payload : Json) : R Json :=
   | "no_crash_shape_file" => C07File.handle payload
   | "no_crash_shape_pipeline" => C07File.handlePipeline payload
   | "c07_run" => C07Stats.handle payload
+  | "c07_out_encode" => C07Out.handle payload
   | "root_context" => File.handleRoot payload
   | "analyse_file" => File.handleFile payload
   | "pipeline" => Pipeline.handle payload
@@ -62,6 +63,8 @@ def dispatch (op : String) (payload : Json) : R Json :=
   | "project" => Project.handle payload
   | "star_root" => C01.handleRoot payload
   | "star_file" => C01.handleFile payload
+  | "c05_reexport" => C05.handleReexport payload
+  | "c05_first_dir" => C05.handleFirstDir payload
   | _ => .error s!"unknown op {op}"
 
 partial def loop (h : IO.FS.Stream) (out : IO.FS.Stream) : IO Unit := do
